@@ -13,6 +13,7 @@ from qkeras import (QDense, QConv2D, QConv1D, QDepthwiseConv2D, QActivation, QAv
 from qkeras.qtools import run_qtools
 from qkeras.qtools.settings import cfg
 from qkeras.qtools import qtools_util
+from qkeras import estimate
 from common import write_ndjson
 
 L = tf.keras.layers
@@ -233,7 +234,12 @@ def main():
       gg = dict(g)
       if gg["pad"] == "causal":
         gg["pad"] = "same"            # causal = left-padded: same number of output positions as 'same'
-      events.append({"k": "count", "g": gg, "reported": int(rep), "layer": lay.name})
+      events.append({"k": "count", "g": gg, "reported": int(rep), "layer": lay.name, "via": "qtools"})
+      if lay.__class__.__name__ in ("QDense", "QConv2D", "QConv1D", "QDepthwiseConv2D"):
+        # the second operation counter of the library (estimate.extract_model_operations, used by print_qstats)
+        ops = estimate.extract_model_operations(model)
+        events.append({"k": "count", "g": gg, "reported": int(ops[lay.name]["number_of_operations"]), "layer": lay.name,
+                       "via": "estimate"})
     except Exception as e:
       errors.append({"k": "exc", "g": g, "exc": repr(e)[:300]})
   # energy reports
@@ -262,8 +268,10 @@ def main():
                          "ref100": [int(round(float("{0:.2f}".format(v)) * 100)) for v in ref[nme]]})
         for sel in sels:
           keys = [sel.get(l["cls"], sel.get("default", [])) for l in layers]
+          prof = q.extract_energy_profile(sel, ed)
           events.append({"k": "energy", "model": mi, "setting": [wmem, amem, ms, int(io)], "layers": layers,
-                         "total": int(ed["total_cost"]), "sel": keys, "extracted": int(q.extract_energy_sum(sel, ed))})
+                         "total": int(ed["total_cost"]), "sel": keys, "extracted": int(q.extract_energy_sum(sel, ed)),
+                         "profile100": [int(round(prof[nme]["total"] * 100)) for nme in names]})
       except Exception as e:
         errors.append({"k": "exc", "g": {"cls": "model%d" % mi, "setting": [wmem, amem, ms, io]}, "exc": repr(e)[:300]})
   write_ndjson("%s.%d.ndjson" % (prefix, shard), events)
